@@ -60,7 +60,7 @@ func genFileOrHand(t *rapid.T, minLen, maxLen int) *fileCase {
 		if minLen > 1 {
 			mc = 3
 		}
-		return genHandFileDAGOpt(t, handOpts{NoEmpty: true, MinChunk: mc, SpareBlockSize: true})
+		return genHandFileDAGOpt(t, handOpts{NoEmpty: true, MinChunk: mc, SpareBlockSize: true, NoFileSizeOK: true})
 	}
 	return genFileDAG(t, minLen, maxLen)
 }
@@ -394,10 +394,35 @@ func TestC05_P_FileRangeHistory(t *testing.T) {
 		}
 		want := map[cid.Cid]bool{}
 		steps := rapid.IntRange(2, 7).Draw(t, "steps")
-		forwardSkip, readAtEnd := false, false
+		forwardSkip, readAtEnd, bareSeek := false, false, false
 		n := int64(len(fc.Data))
 		for s := 0; s < steps; s++ {
 			r := readers[rapid.IntRange(0, nreaders-1).Draw(t, "reader")]
+			if rapid.IntRange(0, 4).Draw(t, "bareSeek") == 0 {
+				// a Seek that is not followed by a read (a consumer that probes the length, or positions and changes its
+				// mind): it reads no byte, so it may not request a block either
+				target := int64(rapid.IntRange(0, int(n)).Draw(t, "seekTarget"))
+				whence := rapid.IntRange(0, 2).Draw(t, "whence")
+				off := target
+				switch whence {
+				case io.SeekCurrent:
+					off = target - r.pos
+				case io.SeekEnd:
+					off = target - n
+				}
+				var pos int64
+				var serr error
+				must(t, "bare seek", func() { pos, serr = r.rs.Seek(off, whence) })
+				if serr != nil || pos != target {
+					t.Fatalf("C05 [%s] step %d: Seek(%d, %d) from %d = (%d, %v), want %d", fc.Desc, s, off, whence, r.pos, pos, serr, target)
+				}
+				r.pos = target
+				if c, ok := subsetOf(fc.St.ReadLog(), want); !ok {
+					t.Fatalf("C05 [%s] step %d: a Seek to %d (whence %d) that was not followed by any read requested block %s, which no range read so far touches", fc.Desc, s, target, whence, c)
+				}
+				bareSeek = true
+				continue
+			}
 			if rapid.IntRange(0, 5).Draw(t, "readAtEnd") == 0 {
 				// a read positioned at or behind the end: [len+d, len+d+k) touches no block, so nothing may be requested
 				d := int64(rapid.SampledFrom([]int{0, 0, 1, 1000}).Draw(t, "behindEnd"))
@@ -475,6 +500,9 @@ func TestC05_P_FileRangeHistory(t *testing.T) {
 		}
 		if readAtEnd {
 			fs += " read-at-end"
+		}
+		if bareSeek {
+			fs += " bare-seek"
 		}
 		ev.Case(fmt.Sprintf("%s d=%d steps=%d r=%d %s", fc.Writer, fc.Tree.Depth(), steps, nreaders, fs), steps >= 3 && fc.Tree.Depth() >= 3 && forwardSkip,
 			"writer:"+fc.Writer, fmt.Sprintf("steps:%d", steps), fmt.Sprintf("readers:%d", nreaders), fs)
